@@ -39,6 +39,10 @@ POSITIONAL = {
     # list items of one list with different content offsets, then a marker of another kind indented between the two offsets
     "W": [["9. a", "1. a", "- a", "8. a"], ["10. b", "2.  b", "-   b", "9. b"], ["   - c", "  - c", "    - c", "  1. c", "   * c", " - c", "", "10. c"],
           ["   - d", "  1. d", ""]],
+    # an item with an indented continuation line, then an item that opens a block quote on its marker line, whose next quote line is
+    # not a paragraph continuation
+    "X": [["1. a", "- a"], ["   b", "  b", ""], ["2. > q", "- > q", "2. >", "- > # h"], ["   >", "  >", "   > # h", "  > ```", "   > r"],
+          ["   > s", "  > s", "", "   > ```"]],
     # containers three deep opened on one line, continued, then a blank line of the outer container and a line that belongs only to it
     "P": [["> 1. > q", "> - > q", "- 1. > q", "> > 1. q", "1. > - q"], [">    > 1. i", ">   > - i", ">    > m", ">    > > d", "  1. > m", "     > - i"],
           [">", "", "> >"], ["> t", "t", ">    t", "> 2. n", "> - n", "  t"]],
